@@ -43,9 +43,9 @@ type domSpec struct {
 
 // domExternalNeverFails: external callees whose error result is nil for every in-domain argument.
 var domExternalNeverFails = map[string]string{
-	"iface:hash.Hash.Write":  "hash.Hash.Write never returns an error (package hash documentation)",
-	"crypto/aes.NewCipher":   "fails only for key sizes other than 16, 24, 32; the size guard before it pins len(key) to the descriptor's key length, which the registry-length rule pins to the RFC table",
-	"iface:io.Writer.Write":  "hash.Hash embeds io.Writer; its Write never returns an error",
+	"iface:hash.Hash.Write":     "hash.Hash.Write never returns an error (package hash documentation)",
+	"crypto/aes.NewCipher":      "fails only for key sizes other than 16, 24, 32; the size guard before it pins len(key) to the descriptor's key length, which the registry-length rule pins to the RFC table",
+	"iface:io.Writer.Write":     "hash.Hash embeds io.Writer; its Write never returns an error",
 	"(*crypto/hmac.hmac).Write": "hash Write never returns an error",
 }
 
@@ -890,7 +890,6 @@ func (c *Ctx) c08Totality(r *Report, prefix string) {
 		"every failure exit of GenerateKeyForChildSA (and of PrfPlus behind its nil test) is unreachable for any nonce string (including the empty one), with or without an integrity transform, on an IKE SA that holds SK_d: on each path to it a branch is refuted by the domain",
 		6, specs, []*ssa.Function{gen})
 }
-
 
 // ---- protect / unprotect (C01, C06) ----
 
